@@ -144,6 +144,13 @@ def _build(b):
         b.fields("read-request", "Read Tag request keeps tag / elements / tag info / request id", RT, r1, {"tag": "T", "elements": 3, "tag_info": TI_DINT, "request_id": 11, "error": None})
         b.expect("read-request", "Read Tag frame", RT, req(r1), connected_frame(b"\x07\x00" + b"\x4c" + PATH + b"\x03\x00"), norm=_mask_timeout)
         b.expect("read-request", "Read Tag service portion (multi-service member)", RT, b.call(r1, "tag_only_message"), b"\x4c" + PATH + b"\x03\x00")
+        # the same request framed for another connection id / session / context / option word: each argument lands in its own field
+        k_, r1b = b.new(PL, "ReadTagRequestPacket", 7, "T", 3, TI_DINT, 11, False)
+        if k_ == "return":
+            msg_ = b"\x07\x00" + b"\x4c" + PATH + b"\x03\x00"
+            cpf_ = bytes(4) + b"\x00\x00" + b"\x02\x00" + b"\xa1\x00\x04\x00" + b"\x55\x66\x77\x88" + b"\xb1\x00" + len(msg_).to_bytes(2, "little") + msg_
+            want_ = b"\x70\x00" + len(cpf_).to_bytes(2, "little") + (0x0A0B0C0D).to_bytes(4, "little") + bytes(4) + b"CONTEXT8" + (0x01000002).to_bytes(4, "little") + cpf_
+            b.expect("read-request", "Read Tag frame for another connection id, session, context and option word", RT, b.call(r1b, "build_request", b"\x55\x66\x77\x88", 0x0A0B0C0D, b"CONTEXT8", 0x01000002), want_, norm=_mask_timeout)
     k, r2 = b.new(PL, "ReadTagFragmentedRequestPacket", 7, "T", 3, TI_DINT, 11, False, 0x1234)
     if k != "return":
         b.rec("fragment-request", "Read Tag Fragmented constructed", RTF, "unknown" if k == "unknown" else "check", False, "a request object", f"{k} {r2}")
@@ -421,6 +428,10 @@ _reg("C10", "D10.10", {"session-request", "session-response"}, 4,
 
 @rule("C01", "D1.13", "T-WITNESS", floor=12)
 def d1_13(ctx):
+    path_and_reply_witnesses(ctx, ("tag-path", "reply"))
+
+
+def path_and_reply_witnesses(ctx, parts):
     """tag_request_path and parse_read_reply folded on witnesses (segment constructors, the path encoder and the type's
     decoder are markers that carry their arguments): a tag string addresses base [indices] then each member [its own
     indices], in order; the symbol instance is used only when asked for, known, and the tag is not program-scoped; the reply
@@ -457,7 +468,28 @@ def d1_13(ctx):
         ("Program:P.T", {"instance_id": 5}, True, [D("Program:P"), D("T")]), ("T", {"instance_id": 5}, False, [D("T")]), ("T", {}, True, [D("T")]), ("T", {"instance_id": 0}, True, [D("T")]),
     ]
     p = [a.arg for a in fn.node.args.args]
-    for tag, ti, use, want in cases:
+    if "request-path" in parts:
+        # request_path(class, instance[, attribute]): the three logical segments in this order, attribute only when given, with
+        # the word-count prefix
+        rq = ctx.model.func(f"{PU}:request_path")
+        q = [a.arg for a in rq.node.args.args]
+        L = lambda v, t: ("L", v, t)  # noqa: E731
+        for label, args, want in (("class and instance", (b"\x02", 1), [L(b"\x02", "class_id"), L(1, "instance_id")]), ("class, instance, attribute", (0x8D, 3, 7), [L(0x8D, "class_id"), L(3, "instance_id"), L(7, "attribute_id")]),
+                                  ("bytes attribute", (b"\x6b", b"\x05\x00", b"\x01"), [L(b"\x6b", "class_id"), L(b"\x05\x00", "instance_id"), L(b"\x01", "attribute_id")]),
+                                  ("empty attribute", (b"\xac", 1, b""), [L(b"\xac", "class_id"), L(1, "instance_id")])):
+            env = dict(zip(q, args))
+            if len(args) < len(q):
+                d_ = rq.node.args.defaults
+                for a_, dv in zip(q[len(q) - len(d_):], d_):
+                    env.setdefault(a_, ctx.folder.eval(dv, rq.module))
+            kind, res = run_function(ctx, rq.module, rq.node, env, call_hook=hook, deep=False)
+            key = ckey(rq, f"witness:{label}")
+            if kind == "unknown":
+                ctx.undecided(key, rq.node, f"request_path not foldable on {label}: {res}")
+                continue
+            ctx.check(kind == "return" and res == ("EPATH", tuple(want), True), key, rq.node, f"request_path{args!r} -> {want}, with the word-count prefix",
+                      f"request_path{args!r} gives {kind} {res!r}; expected the padded EPATH (with length) of {want}", witness=label)
+    for tag, ti, use, want in (cases if "tag-path" in parts else ()):
         kind, res = run_function(ctx, fn.module, fn.node, {p[0]: tag, p[1]: dict(ti), p[2]: use}, call_hook=hook, deep=False)
         key = ckey(fn, f"witness:{tag}|{sorted(ti)}|{use}")
         if kind == "unknown":
@@ -466,6 +498,8 @@ def d1_13(ctx):
         ctx.check(kind == "return" and res == ("EPATH", tuple(want), True), key, fn.node, f"{tag!r} (instance ids {'on' if use else 'off'}, {ti}) -> {want}, with the word-count prefix",
                   f"tag_request_path({tag!r}, {ti}, {use}) gives {kind} {res!r}; expected the padded EPATH (with length) of {want}", witness=tag)
 
+    if "reply" not in parts:
+        return
     pr = ctx.model.func(f"{PU}:parse_read_reply")
     decoded = []
 
